@@ -132,6 +132,7 @@ func runStaged(rt *rapid.T, e *stageEnv) {
 	q := s.Def.Quorum()
 	rounds := rapid.IntRange(2, 5).Draw(rt, "stagedRounds")
 	prepared := map[int64]bool{} // honest members the harness has let see a prepare quorum so far
+	sawPrepareLast := map[int64]bool{}
 	// Scenario: with probability 1/2 the intents of the rounds before the first Byzantine-led round
 	// R >= 3 are biased towards "round R-2 prepares a value at a few members only, round R-1 prepares
 	// another value at other members" (two prepared values alive when a Byzantine member leads); each
@@ -140,10 +141,17 @@ func runStaged(rt *rapid.T, e *stageEnv) {
 	// Scenario B (one case in four): the round before the first Byzantine-led round R >= 2 ends with
 	// some members not timing out, so that they jump to round R on the Byzantine leader's justified
 	// PRE-PREPARE; the leader equivocates, giving the jumping members both values.
-	target, targetB := int64(0), int64(0)
+	// Scenario C (half of the cases without Byzantine members): a walk along the lock rule. Rounds 1 and 2 each let
+	// a single (fresh) member see a prepare quorum and nobody decide, round 3 lets everybody prepare and exactly one
+	// member decide, and after every round each member hears the ROUND-CHANGEs for the next round *except those
+	// that report the highest prepared round* (the scheduler plays against the "highest prepared" rule: what a
+	// member under-reports then decides the next proposal).
+	target, targetB, targetC := int64(0), int64(0), int64(0)
 	scenario := 0
 	if len(e.byzs) > 0 {
 		scenario = rapid.IntRange(0, 3).Draw(rt, "scenario")
+	} else if rapid.Bool().Draw(rt, "lockWalk") {
+		scenario = 4
 	}
 	forceAll := os.Getenv("VERIF_FORCE_SCENARIO") != ""
 	if forceAll {
@@ -171,8 +179,19 @@ func runStaged(rt *rapid.T, e *stageEnv) {
 			rounds = int(targetB + 1)
 		}
 	}
+	if scenario == 4 {
+		targetC = 3
+		if rounds < 4 {
+			rounds = 4
+		}
+	}
 	e.jumpRound = targetB
 	intent := func(name string, r int64, hi int, forced map[int64]int) int {
+		if targetC > 0 {
+			if v, ok := forced[200+r-targetC]; ok && (forceAll || rapid.IntRange(0, 5).Draw(rt, name+"Free") != 0) {
+				return v
+			}
+		}
 		if target > 0 {
 			if v, ok := forced[r-target]; ok && (forceAll || rapid.IntRange(0, 4).Draw(rt, name+"Free") != 0) {
 				return v
@@ -197,7 +216,7 @@ func runStaged(rt *rapid.T, e *stageEnv) {
 		isRound := func(typ cq.MsgType, rr int64) func(d qbftsim.Delivery) bool {
 			return func(d qbftsim.Delivery) bool { return d.Msg.Typ == typ && d.Msg.Rnd == rr }
 		}
-		ppMode := intent("ppIntent", r, 5, map[int64]int{-4: 1, -3: 1, -2: 1, -1: 1, 0: 1, 99: 1, 100: 1, 101: 1})
+		ppMode := intent("ppIntent", r, 5, map[int64]int{-4: 1, -3: 1, -2: 1, -1: 1, 0: 1, 99: 1, 100: 1, 101: 1, 198: 1, 199: 1, 200: 1, 201: 1})
 		ppDst := setOf(e.hon)
 		if ppMode == 0 {
 			ppDst = e.subset(rt, "ppDst", e.hon)
@@ -222,7 +241,7 @@ func runStaged(rt *rapid.T, e *stageEnv) {
 
 		// --- who sees a prepare quorum
 		var seePrepare map[int64]bool
-		switch intent("prepareIntent", r, 5, map[int64]int{-4: 4, -3: 4, -2: 1, -1: 3, 0: 0, 98: 4, 99: 4, 100: 0, 101: 0}) {
+		switch intent("prepareIntent", r, 6, map[int64]int{-4: 4, -3: 4, -2: 1, -1: 3, 0: 0, 98: 4, 99: 4, 100: 0, 101: 0, 198: 1, 199: 1, 200: 6, 201: 0}) {
 		case 0: // everybody
 			seePrepare = setOf(e.hon)
 		case 1, 2: // a small set (at most n - quorum members), preferably members not prepared before
@@ -258,9 +277,17 @@ func runStaged(rt *rapid.T, e *stageEnv) {
 			}
 		case 4: // nobody
 			seePrepare = map[int64]bool{}
+		case 6: // everybody but the members that saw the previous round's prepare quorum (they keep their older lock)
+			seePrepare = map[int64]bool{}
+			for _, h := range e.hon {
+				if !sawPrepareLast[h] {
+					seePrepare[h] = true
+				}
+			}
 		default:
 			seePrepare = e.subset(rt, "prepDst", e.hon)
 		}
+		sawPrepareLast = seePrepare
 		for _, h := range e.hon {
 			if seePrepare[h] {
 				e.deliverAll(func(d qbftsim.Delivery) bool { return isRound(cq.MsgPrepare, r)(d) && d.Dst == h }, 200)
@@ -272,7 +299,7 @@ func runStaged(rt *rapid.T, e *stageEnv) {
 		}
 		// --- who sees a commit quorum
 		var seeCommit map[int64]bool
-		switch intent("commitIntent", r, 5, map[int64]int{-4: 3, -3: 3, -2: 3, -1: rapid.SampledFrom([]int{0, 1, 3}).Draw(rt, "scenarioCommit"), 0: 0, 98: 3, 99: 3, 100: rapid.SampledFrom([]int{1, 1, 3}).Draw(rt, "scenarioCommitB"), 101: 0}) {
+		switch intent("commitIntent", r, 5, map[int64]int{-4: 3, -3: 3, -2: 3, -1: rapid.SampledFrom([]int{0, 1, 3}).Draw(rt, "scenarioCommit"), 0: 0, 98: 3, 99: 3, 100: rapid.SampledFrom([]int{1, 1, 3}).Draw(rt, "scenarioCommitB"), 101: 0, 198: 3, 199: 3, 200: 1, 201: 0}) {
 		case 0:
 			seeCommit = setOf(e.hon)
 		case 1, 2: // exactly one member
@@ -310,7 +337,7 @@ func runStaged(rt *rapid.T, e *stageEnv) {
 			break
 		}
 		// --- timeouts
-		toMode := intent("timeoutIntent", r, 5, map[int64]int{-4: 1, -3: 1, -2: 1, -1: 1, 98: 1, 99: 4, 100: 1})
+		toMode := intent("timeoutIntent", r, 5, map[int64]int{-4: 1, -3: 1, -2: 1, -1: 1, 98: 1, 99: 4, 100: 1, 198: 1, 199: 1, 200: 1})
 		e.laggards = map[int64]bool{}
 		if und := e.undecided(); toMode == 4 && len(und) > 1 {
 			// all but k members time out (k at most n - quorum, so the others plus the Byzantine
@@ -342,7 +369,7 @@ func runStaged(rt *rapid.T, e *stageEnv) {
 			}
 		}
 		// --- whose ROUND-CHANGEs arrive (per destination)
-		rcMode := intent("rcIntent", r, 6, map[int64]int{-4: 3, -3: 3, -2: 0, -1: 3, 98: 3, 99: 6, 100: 3})
+		rcMode := intent("rcIntent", r, 7, map[int64]int{-4: 3, -3: 3, -2: 0, -1: 3, 98: 3, 99: 6, 100: 3, 198: 7, 199: 7, 200: 7})
 		for _, h := range e.hon {
 			if rcMode == 6 && e.laggards[h] {
 				continue // members that did not time out do not hear of the round change yet (f+1 rule would pull them along)
@@ -354,6 +381,24 @@ func runStaged(rt *rapid.T, e *stageEnv) {
 				for i := int64(0); i < int64(e.cfg.n); i++ {
 					if !prepared[i] {
 						from[i] = true
+					}
+				}
+			case rcMode == 7: // everything but the ROUND-CHANGEs that report the highest prepared round
+				var maxPR int64
+				for _, i := range e.pendingIdx(func(d qbftsim.Delivery) bool { return isRound(cq.MsgRoundChange, r+1)(d) && d.Dst == h }) {
+					e.s.Lock()
+					if pr := e.s.Pending[i].Msg.PR; pr > maxPR {
+						maxPR = pr
+					}
+					e.s.Unlock()
+				}
+				from = map[int64]bool{}
+				for _, i := range e.pendingIdx(func(d qbftsim.Delivery) bool { return isRound(cq.MsgRoundChange, r+1)(d) && d.Dst == h }) {
+					e.s.Lock()
+					m := e.s.Pending[i].Msg
+					e.s.Unlock()
+					if maxPR == 0 || m.PR < maxPR {
+						from[m.Src] = true
 					}
 				}
 			case rcMode == 3:
